@@ -262,7 +262,7 @@ Definition c18_http_sched : list HttpServer.label :=
    HttpServer.LObsCensus 2; HttpServer.LLasClosed 0; HttpServer.LBindOk 1; HttpServer.LProbeOk; HttpServer.LFinish;
    HttpServer.LReloadRet 0; HttpServer.LObsCensus 1;
    HttpServer.LStopCall 0; HttpServer.LRunWake; HttpServer.LRunLockStop; HttpServer.LStopCallS 1;
-   HttpServer.LShutdownRet 1 HttpServer.SOk; HttpServer.LRunRet HttpServer.ROk; HttpServer.LStopRet 0;
+   HttpServer.LShutdownRet 1 HttpServer.SOk; HttpServer.LRunFinishStop; HttpServer.LRunRet HttpServer.ROk; HttpServer.LStopRet 0;
    HttpServer.LLasClosed 1; HttpServer.LObsCensus 0].
 Example C18_http_ex_restart_and_stop : exists s,
   LTS.run (HttpServer.step true true (fun _ => true)) (HttpServer.init (c18_http_cfg 65%N)) c18_http_sched = Some s /\
